@@ -232,6 +232,31 @@ func (v *vnet) op(f []string) string {
 			}
 		}
 		return "status=-1"
+	case "rawget": // rawget <node> <method> <pathhex> <none|pw|wrong>: one request to an arbitrary path of a real node
+		n, _ := strconv.Atoi(f[1])
+		ctx, cancel := context.WithTimeout(context.Background(), 4*time.Second)
+		defer cancel()
+		req, err := http.NewRequestWithContext(ctx, f[2], v.url(n, vunhex(f[3])), nil)
+		if err != nil {
+			return "bad-op"
+		}
+		switch f[4] {
+		case "pw":
+			req.SetBasicAuth("robustirc", v.pw)
+		case "wrong":
+			req.SetBasicAuth("robustirc", v.pw+"x")
+		}
+		resp, err := v.client.Do(req)
+		if err != nil {
+			return "status=-1"
+		}
+		defer resp.Body.Close()
+		b, _ := io.ReadAll(io.LimitReader(resp.Body, 1<<22))
+		leak := 0
+		if bytes.Contains(b, []byte(v.pw)) {
+			leak = 1
+		}
+		return fmt.Sprintf("status=%d leak=%d len=%d", resp.StatusCode, leak, len(b))
 	case "sleep":
 		ms, _ := strconv.Atoi(f[1])
 		time.Sleep(time.Duration(ms) * time.Millisecond)
